@@ -279,7 +279,7 @@ def gen():
                             "dense": draw(st.booleans()), "depth": draw(st.integers(2, 5)), "leap": draw(st.integers(2, 6)),
                             "imm": draw(st.sampled_from([0.5, 1.0, 2.0]))})
         return {"family": fam, "liesel": draw(st.booleans()), "transformed": draw(st.booleans()), "kernels": kernels, "K": draw(st.integers(1, 25)),
-                "n": draw(st.integers(3, 12)), "epoch": draw(st.sampled_from([3, 4])), "data_seed": draw(st.integers(0, 10**6)), "case_seed": draw(st.integers(0, 2**30))}
+                "n": draw(st.integers(3, 12)), "epoch": draw(st.sampled_from([3, 4])), "auto_off": draw(st.booleans()), "chunk_pick": draw(st.integers(0, 5)), "data_seed": draw(st.integers(0, 10**6)), "case_seed": draw(st.integers(0, 2**30))}
 
     return g()
 
@@ -337,6 +337,8 @@ def run_case(c, N, subseed):
     th0, y = fam.sample(rng, N)
     if c["liesel"]:
         model, keymap = fam.liesel(c["transformed"] and c["family"] == "normal_ms")
+        if c.get("auto_off"):
+            model.auto_update = False          # documented performance switch of the user's model; the interface must not depend on it
         iface = gs.LieselInterface(model)
         pos = {keymap[k]: jnp.asarray(np.asarray(v, dtype=np.float32)) for k, v in th0.items()}
         pos["y"] = jnp.asarray(y.astype(np.float32))
@@ -359,9 +361,11 @@ def run_case(c, N, subseed):
         ker.set_model(iface)
         kernels.append(ker)
     K = c["K"]
+    divs = [d for d in range(1, K + 1) if K % d == 0]
+    chunk = divs[-1 - (c.get("chunk_pick", 0) % len(divs))]          # jitted chunk length: K itself (pick 0) or a smaller divisor of K
     eng = gs.Engine(seeds=jax.random.split(jax.random.PRNGKey((c["case_seed"] + 31 * subseed) % 2**31), N), model_states=states,
                     kernel_sequence=KernelSequence(kernels), epoch_configs=[EpochConfig(EpochType.INITIAL_VALUES, 1, 1, None), EpochConfig(EpochType(c["epoch"]), K, 1, None)],
-                    jitted_sample_duration=K, model=iface, position_keys=[keymap[k] for k in fam.blocks], store_kernel_states=True, show_progress=False)
+                    jitted_sample_duration=chunk, model=iface, position_keys=[keymap[k] for k in fam.blocks], store_kernel_states=True, show_progress=False)
     eng.sample_all_epochs()
     res = eng.get_results()
     # the premise of the property: in burn-in and posterior epochs the tuning parameters are held fixed
@@ -422,7 +426,9 @@ def oracle(c):
     acc_ok = all((0.02 < a < 0.98) or c["kernels"][int(kid[1:])]["kind"] in ("nuts", "gibbs") for kid, a in info["accept"].items())
     nt = acc_ok and all(m >= 0.5 for m in info["moved"].values()) and c["K"] >= 3
     cls = [c["family"], "liesel" if c["liesel"] else "dict", "+".join(k["kind"] for k in c["kernels"]), "K>=3" if c["K"] >= 3 else "K<3",
-           "acc-ok" if acc_ok else "acc-extreme", "moved" if all(m >= 0.5 for m in info["moved"].values()) else "stuck"]
+           "acc-ok" if acc_ok else "acc-extreme", "moved" if all(m >= 0.5 for m in info["moved"].values()) else "stuck",
+           "auto-off" if (c.get("auto_off") and c["liesel"]) else "auto-on",
+           "multi-chunk" if (c.get("chunk_pick", 0) % len([d for d in range(1, c["K"] + 1) if c["K"] % d == 0])) else "one-chunk"]
     return {"nt": bool(nt), "cls": cls, "extra": {"max_abs_z": rep["max_abs_z"], "suspicious": len(rep["suspicious"])}}
 
 
